@@ -136,9 +136,10 @@ func run(c *fw.Ctx) {
 
 func init() {
 	fw.Register(&fw.Property{
-		ID:   "C18",
-		Run:  run,
-		Race: true,
+		ID:    "C18",
+		Level: "fault_enumeration",
+		Run:   run,
+		Race:  true,
 		Replay: func(c *fw.Ctx, w json.RawMessage) {
 			var wit struct {
 				Case *uploadCase `json:"case"`
